@@ -4,7 +4,7 @@
 
 // ===================================================================================================
 // property checks; each returns PASS/FAIL/DISCARD for one case
-enum PropId { C01, C02, C05, C08, C09, C10, C11, C16, C04G };
+enum PropId { C01, C02, C05, C08, C09, C10, C11, C16, C04G, C12S };
 
 template<class TT>
 static Verdict check_case(PropId prop, const GCase& c, Stats& st)
@@ -16,6 +16,9 @@ static Verdict check_case(PropId prop, const GCase& c, Stats& st)
     // mode, in particular while error recovery is discarding terms: the recovery oracle of C08 restricted to inputs with an unmatchable byte
     const bool only_lexical = prop == C04G;
     if (only_lexical) prop = C08;
+    // C12s: "stack sizes ... are large enough for every input": the value oracle of C02 on inputs that are much deeper / longer than any initial reservation
+    const bool only_deep = prop == C12S;
+    if (only_deep) prop = C02;
     bool uses_err = g.uses_error();
     if (uses_err && (prop == C01 || prop == C09 || prop == C05)) return Verdict::discard("uses-error");
     if (!uses_err && prop == C08) return Verdict::discard("no-error-rule");
@@ -257,6 +260,7 @@ static Verdict check_case(PropId prop, const GCase& c, Stats& st)
         if (e.rr.hit_rr || e.rr.looped) continue;
         if (prop == C01 || prop == C02 || prop == C05) { if (e.L.lex_error) continue; }
         if (only_lexical && !e.L.lex_error) continue;
+        if (only_deep && e.L.toks.size() < 900) continue;
         if (!uses_err && !e.L.lex_error && e.L.toks.size() <= 160)      // Earley is cubic: the second opinion is for the short inputs
         {
             std::vector<int> tt; for (auto& t : e.L.toks) tt.push_back(t.term);
@@ -270,7 +274,7 @@ static Verdict check_case(PropId prop, const GCase& c, Stats& st)
             }
             if (dis) { ++disagreements; continue; }
         }
-        auto fail = [&](const std::string& what, vj::Value det) { return Verdict::fail(only_lexical ? "input with a byte that no term matches: " + what : what, det); };
+        auto fail = [&](const std::string& what, vj::Value det) { return Verdict::fail(only_lexical ? "input with a byte that no term matches: " + what : only_deep ? "deep / long input (beyond every initial stack reservation): " + what : what, det); };
 
         if (prop == C01)
         {
@@ -542,7 +546,7 @@ struct GP
     using Case = GCase;
     static const char* id()
     {
-        switch (PROP) { case C01: return "C01"; case C02: return "C02"; case C05: return "C05"; case C08: return "C08"; case C09: return "C09"; case C10: return "C10"; case C11: return "C11"; case C04G: return "C04g"; default: return "C16"; }
+        switch (PROP) { case C01: return "C01"; case C02: return "C02"; case C05: return "C05"; case C08: return "C08"; case C09: return "C09"; case C10: return "C10"; case C11: return "C11"; case C04G: return "C04g"; case C12S: return "C12s"; default: return "C16"; }
     }
     static Case gen(Choice& ch)
     {
@@ -555,6 +559,18 @@ struct GP
         case C09: return gen_case(ch, gg::CONFLICT_FREE, 8, true, true);
         case C10: return gen_case(ch, ch.chance(1, 2) ? gg::RECOVERY : gg::CONFLICT_FREE, 12, true, true);   // positions after recovery-skipped terms too
         case C11: return gen_case(ch, gg::ANY, 4, false, false);
+        case C12S:
+        {
+            // every case carries deep sentences: right recursion and nesting 1030..2600 rounds, and runs of more than 65535 terms
+            GCase c = gen_case(ch, gg::CONFLICT_FREE, 2, false, false, false);
+            eng::Rng rng = ch.fork(); ref::Analysis an = ref::analyse(c.g);
+            for (int k = 0; k < 2; ++k)
+            {
+                std::vector<int> toks; size_t n = k == 0 ? 1030 + rng.below(4) * 520 : (rng.chance(1, 3) ? 65600 + rng.below(4000) : 4100 + rng.below(4200));
+                if (gg::deep_sentence(c.g, an, n, rng, toks)) { c.inputs.push_back(gg::Input{gg::render(toks, nullptr)}); if (rng.chance(1, 3) && toks.size() > 4) { toks.resize(toks.size() - 1 - rng.below(3)); c.inputs.push_back(gg::Input{gg::render(toks, nullptr)}); } }
+            }
+            return c;
+        }
         case C04G:
         {
             GCase c = gen_case(ch, gg::RECOVERY, 14, true, true);
@@ -992,23 +1008,30 @@ struct P_C08t
 // name / typed), names that are prefixes of each other, and a declaration order different from the index order.
 struct Spelling { char kind; std::string text; std::string name; };     // kind: c char, s string, r regex "<letter>[0-9]+", R regex without custom name, t typed char term
 struct SpellTable { std::vector<Spelling> sp; std::vector<int> decl_order; };
-static SpellTable make_spelling(Choice& ch)
+// The choice bytes are usually used up by the time the spelling is drawn (exhausted bytes read as 0 = the first menu entry, a plain char term), so the
+// spelling comes from a PRNG seeded with the remaining bytes AND the grammar: still a pure function of the generated case.
+struct SpellRng { eng::Rng r; uint32_t below(uint32_t n) { return r.below(n); } bool chance(uint32_t a, uint32_t b) { return r.chance(a, b); } };
+static SpellTable make_spelling(Choice& ch0, uint64_t salt, const std::vector<int>& used)
 {
+    SpellRng ch{eng::Rng(eng::mix64(ch0.fork().next() ^ salt))};
     // per terminal a menu; several entries are proper prefixes of entries of other terminals ("<" / "<=", "b" / "be", "i" / "if")
     static const std::vector<std::vector<Spelling>> menu = {
         {{'c', "a", "a"}, {'s', "al", "al"}, {'r', "a[0-9]+", "anum"}, {'T', "a[0-9]+", "number"}},
         {{'c', "b", "b"}, {'s', "be", "be"}, {'s', "b", "b"}, {'R', "b[0-9]+", "r_b[0-9]+"}},
         {{'c', "c", "c"}, {'s', "<=", "<="}, {'s', "if", "if"}, {'t', "c", "c"}},
-        {{'c', "d", "d"}, {'s', "<", "<"}, {'s', "i", "i"}, {'r', "d[0-9]+", "dnum"}},
-        {{'c', "e", "e"}, {'s', "end", "end"}, {'c', "\x01", "\\x01"}, {'s', "en", "en"}},
+        {{'c', "d", "d"}, {'s', "<", "<"}, {'s', "i", "i"}, {'r', "d[0-9]+", "dnum"}, {'s', ";\n", ";\n"}},           // a string term with a line break inside
+        {{'c', "e", "e"}, {'s', "end", "end"}, {'c', "\x01", "\\x01"}, {'s', "en", "en"}, {'c', std::string(1, '\0'), "\\x00"}},   // a char term that is the NUL byte
         {{'c', "f", "f"}, {'s', "==", "=="}, {'c', "=", "="}, {'t', "f", "f"}}};
     SpellTable t;
-    for (size_t i = 0; i < 6; ++i) t.sp.push_back(menu[i][ch.below(4)]);
+    for (size_t i = 0; i < 6; ++i) t.sp.push_back(menu[i][ch.below(uint32_t(menu[i].size() > 4 && ch.chance(1, 4) ? menu[i].size() : 4))]);
     if (getenv("EMIT_NAMED_TERMS"))
     {   // C09's programs: make sure terms with a display name different from their id (named regex terms, typed terms wrapping them) are frequent
         t.sp[0] = menu[0][3 - ch.below(2)];      // typed(named regex) by default, plain named regex sometimes
         if (ch.chance(1, 2)) t.sp[3] = menu[3][3];
     }
+    // C10's programs: a string term with a line break inside is frequent; C07's programs: a char term that is the NUL byte - both on terminals the grammar uses
+    if (getenv("EMIT_NEWLINE_TERM") && ch.chance(2, 3) && !used.empty()) t.sp[size_t(used[ch.below(uint32_t(used.size()))])] = menu[3][4];
+    if (getenv("EMIT_NUL_TERM") && ch.chance(1, 2) && !used.empty()) { int u = used[ch.below(uint32_t(used.size()))]; if (t.sp[size_t(u)].text != menu[3][4].text) t.sp[size_t(u)] = menu[4][4]; }
     // two terminals must not share a spelling or a first letter with a regex spelling (keeps the reference tokeniser trivial)
     for (size_t i = 0; i < 6; ++i) for (size_t j = 0; j < i; ++j)
     {
@@ -1109,7 +1132,7 @@ static int emit_cases(const eng::Args& a)
         for (int k = 0; k < 2 && !keep.empty(); ++k) { gg::Input in = keep[rng.below(uint32_t(keep.size()))]; if (rng.chance(1, 2)) in.skip_nl = false; else in.skip_ws = false; in.text += rng.chance(1, 2) ? "\n a" : " b"; keep.push_back(in); }
         // half of the cases: real term kinds. Inputs are re-rendered with the spellings; the reference re-tokenises the new text.
         bool spelled = (ch.chance(1, 2) || getenv("EMIT_NAMED_TERMS") || getenv("EMIT_ALWAYS_SPELLED")) && !getenv("EMIT_NO_SPELLING");
-        SpellTable spell; if (spelled) spell = make_spelling(ch);
+        SpellTable spell; if (spelled) { std::set<int> ut = gg::used_terms(g); spell = make_spelling(ch, g.hash(), std::vector<int>(ut.begin(), ut.end())); }
         auto tname = [&](int t) -> std::string { if (t == g.eof()) return "<eof>"; if (t == g.err()) return "<error_recovery_token>"; return spelled ? spell.sp[size_t(t)].name : g.tname(t); };
         if (spelled)
         {
@@ -1144,6 +1167,16 @@ static int emit_cases(const eng::Args& a)
             if (e.rr.lex_error_reached) msgs += "[" + std::to_string(e.L.err_line) + ":" + std::to_string(e.L.err_col) + "] PARSE: Unexpected character: " + std::string(1, char(e.L.err_byte)) + "\n";
             x.set("messages_hex", vj::hex(msgs)); x.set("tokens", (unsigned long long)e.L.toks.size()); x.set("max_depth", (unsigned long long)e.rr.max_depth);
             { vj::Value rs = vj::Value::array(); for (int r : e.rr.reduces) rs.push(g.rules[size_t(r)].slot); x.set("reduces", rs); }
+            {   // digest of the source points that rule functors see in their term arguments, in call order (rules without functor make no call)
+                uint64_t dg = 0x51ed;
+                for (size_t ci = 0; ci < e.rr.calls.size() && ci < e.rr.call_args.size(); ++ci)
+                {
+                    int slot = g.rules[size_t(e.rr.calls[ci].first)].slot;
+                    if (g.rules[size_t(e.rr.calls[ci].first)].passthrough) continue;       // rendered without a functor
+                    for (int ti : e.rr.call_args[ci]) if (ti >= 0 && size_t(ti) < e.L.toks.size()) dg = eng::hcomb(dg, eng::hcomb(uint64_t(slot), uint64_t(e.L.toks[size_t(ti)].line) * 1000003ULL + uint64_t(e.L.toks[size_t(ti)].col)));
+                }
+                x.set("posdigest", std::to_string((unsigned long long)dg));
+            }
             x.set("kind", e.rr.accepted ? (e.rr.error_tokens.empty() ? "accepted" : "accepted-after-recovery") : (e.rr.lex_error_reached ? "lexical-failure" : "syntax-failure"));
             ins.push(x); if (e.rr.accepted) ++nacc; else ++nrej;
         }
@@ -1183,6 +1216,7 @@ int main(int argc, char** argv)
         else if (a.prop == "C11") rc = eng::run_property<GP<C11>>(a);
         else if (a.prop == "C16") rc = eng::run_property<GP<C16>>(a);
         else if (a.prop == "C04g") rc = eng::run_property<GP<C04G>>(a);
+        else if (a.prop == "C12s") rc = eng::run_property<GP<C12S>>(a);
         else { fprintf(stderr, "unknown --prop %s\n", a.prop.c_str()); rc = 2; }
     });
     return rc;
